@@ -23,14 +23,19 @@ def case_strategy(draw, tier):
     base = draw(S.configurator_spec(max_items=6, max_rules=3))
     extra = draw(S.configurator_spec(max_items=6, max_rules=4, explicit_p=50))
     adds = []
-    top_ids = [r.get("id") for r in base["c"] if r.get("id")]
+    # top-level children that are not plain boolean rules: an integer item, a rule whose own variable is pre-fixed
+    r = draw(st.integers(0, 3))
+    if r == 0:
+        base["c"].append({"k": "leaf", "id": "n", "b": list(draw(st.sampled_from([(0, 3), (-1, 2), (1, 4)])))})
+    # (a rule with a pre-fixed variable is not generated: the polyhedron of pre-fixed models is outside C01's domain)
+    top_ids = [r_.get("id") for r_ in base["c"] if r_.get("id")]
     for j, r in enumerate(extra["c"][:4]):
         r = dict(r)
         if r.get("id") is not None and r["k"] != "leaf":
             r["id"] = "X%d" % j
             rename(r, "X%d_" % j)
-        if top_ids and draw(st.integers(0, 5)) == 0 and r["k"] != "leaf":
-            r["id"] = draw(st.sampled_from(top_ids))       # clash on purpose
+        if top_ids and draw(st.integers(0, 4)) == 0 and r["k"] != "leaf":
+            r["id"] = draw(st.sampled_from(top_ids[-2:] + top_ids))       # clash on purpose (biased to the special children)
         adds.append(r)
     prios = [list(kv) for kv in sorted(draw(st.dictionaries(st.sampled_from(["a", "b", "c", "d", "e", "f"]),
                                                             st.sampled_from([1, 2, -1]), max_size=3)).items())]
